@@ -98,7 +98,7 @@ func (g *cfg) rewX(t int64) int64 {
 func within53(t int64) bool { return t <= 1<<53 && t >= -(1<<53) }
 
 // classify names the discrepancy class of a row on which DuckDB(original) != DuckDB(rewritten).
-func (g *cfg) classify(t int64) string {
+func (g *cfg) classify(t, ov, nv int64) string {
 	fn := "time_bucket"
 	if g.isDt {
 		fn = "date_trunc"
@@ -114,6 +114,9 @@ func (g *cfg) classify(t int64) string {
 	}
 	if !g.isDt && !g.three && defaultOriginSec%g.s != 0 {
 		return fn + ":default-origin-2000-01-03-ignored"
+	}
+	if d := ov - nv; !within53(t) && d > -usPerSec && d < usPerSec {
+		return fn + ":far-future-double-precision" // sub-second difference outside the exact range of binary64
 	}
 	if g.origX(t) == g.rewX(t) {
 		if !within53(t) {
@@ -498,7 +501,7 @@ func runTimeCfg(g *cfg, nTs int) {
 		c.Op(fmt.Sprintf("t %d", t), fmt.Sprintf("o=%d n=%d", ov[i].Int64, nv[i].Int64))
 		fmt.Fprintf(&canon, " %d", t)
 		if ov[i].Int64 != nv[i].Int64 {
-			key := g.classify(t)
+			key := g.classify(t, ov[i].Int64, nv[i].Int64)
 			c.Tag("mismatch:" + key)
 			c.Fail(key, fmt.Sprintf("DuckDB: %s = %dµs but arc's rewrite %s = %dµs for ts = %dµs", g.orig, ov[i].Int64, g.rew, nv[i].Int64, t), replay)
 		} else {
@@ -1009,6 +1012,8 @@ func runURLs(n int) {
 	must(err)
 	cs, err := strCol(caseRep)
 	must(err)
+	csE, err := strCol(caseExt) // the replacement of the REGEXP_EXTRACT call (same text as caseRep today)
+	must(err)
 	for i := range rep { // row 0 is the NULL row (i = -1)
 		var op, s string
 		if i == 0 {
@@ -1027,10 +1032,10 @@ func runURLs(n int) {
 		} else {
 			c.Tag("url-replace:equal")
 		}
-		if ext[i] != cs[i] {
+		if ext[i] != csE[i] {
 			key := classifyExtract(s)
 			c.Tag("mismatch:" + key)
-			c.Fail(key, fmt.Sprintf("u=%q: REGEXP_EXTRACT(u,'%s',1) = %q but arc's CASE rewrite = %q", s, patExtract, ext[i].String, cs[i].String),
+			c.Fail(key, fmt.Sprintf("u=%q: REGEXP_EXTRACT(u,'%s',1) = %q but arc's CASE rewrite = %q", s, patExtract, ext[i].String, csE[i].String),
 				fmt.Sprintf("SELECT %s AS original, %s AS rewritten FROM (SELECT %s AS u);", callExt, caseExt, sqlStr(s)))
 		} else {
 			c.Tag("url-extract:equal")
@@ -1063,7 +1068,11 @@ func runURLs(n int) {
 		}
 		for i := range a {
 			// only rows on which the canonical pattern agrees with the CASE: the difference is specific to the variant
-			if a[i] != b[i] && base[i] == cs[i] {
+			baseCase := cs
+			if strings.HasPrefix(v.call, "REGEXP_EXTRACT") {
+				baseCase = csE
+			}
+			if a[i] != b[i] && base[i] == baseCase[i] {
 				s := ""
 				if i > 0 {
 					s = urls[i-1]
